@@ -17,9 +17,7 @@ from vgi_rpc.external import predict_externalize_bytes_for_batch
 from vgi_rpc.metadata import PROTOCOL_VERSION_KEY
 from vgi_rpc.rpc import (
     CallContext,
-    RpcError,
     RpcMethodInfo,
-    VersionError,
     _build_result_batch,
     _ClientLogSink,
     _deserialize_params,
@@ -45,7 +43,7 @@ from vgi_rpc.rpc._common import (
 from vgi_rpc.utils import new_ipc_stream
 
 from .._common import _RpcHttpError
-from ._responses import _enforce_response_budgets
+from ._responses import _BAD_REQUEST_ERRORS, _enforce_response_budgets
 
 if TYPE_CHECKING:
     from ._app import _HttpRpcApp
@@ -112,7 +110,7 @@ def _run_unary_sync(
             # is the method's own and gets the ordinary error path.
             _validate_call_signature(info.name, kwargs, info.param_types, info.param_defaults, info.params_schema)
             _validate_params(info.name, kwargs, info.param_types)
-        except (pa.ArrowInvalid, TypeError, StopIteration, RpcError, VersionError) as exc:
+        except _BAD_REQUEST_ERRORS as exc:
             raise _RpcHttpError(exc, status_code=HTTPStatus.BAD_REQUEST) from exc
         except Exception as exc:
             # Resolving an ExternalLocation is part of reading the request but
